@@ -36,7 +36,26 @@ def units_for(prop, sp, index, tier='quick'):
             ok = serves(prop, fname, clauses)
         if ok:
             out.append(fname)
-    return out
+    # self-contained projections: every contract a served unit relies on (replaced callees, transitively
+    # through inlined functions) is itself enforced in the same projection
+    seen, todo = set(out), list(out)
+    fns = index['functions']
+    while todo:
+        f = todo.pop()
+        stack, visited = [f], set()
+        while stack:
+            g = stack.pop()
+            if g in visited:
+                continue
+            visited.add(g)
+            for c in fns.get(g, {}).get('callees', []):
+                if c in sp.inline:
+                    stack.append(c)
+                elif c in sp.contracts and c not in seen:
+                    seen.add(c)
+                    out.append(c)
+                    todo.append(c)
+    return sorted(out)
 
 
 ASSUMPTIONS = [
